@@ -22,19 +22,36 @@ func (Prop) Configs(tier string) []string {
 	// SM3 dispatch depends on avx2+bmi2 / avx|ssse3 / none, and the purego tag.
 	return []string{"c-default", "c-noavx2", "c-sse", "c-scalar", "c-nobmi2", "c-purego"}
 }
-func (Prop) SelfTest() error { return sm3ref.SelfTest() }
+func (Prop) SelfTest() error { return sm3ref.StreamSelfTest() } // includes sm3ref.SelfTest
 func (Prop) Rule() string {
 	return "E1: BFS (depth 4 quick / 5 thorough, sharded by first operation) plus deviation-bounded histories (default write to horizon 8 with <= 2 departures; thorough: horizon 14 with <= 2 and horizon 6 with <= 3) over {Write(c) for 22 chunk sizes, Reset, Marshal->Unmarshal into fresh / used object} on a real sm3.New() object, " +
 		"oracle after every step = reference SM3 of the bytes since the last Reset via Sum(nil) and Sum(prefix), Sum must leave the private state dump unchanged; " +
 		"states are merged only on identical full private state (h, x incl. stale bytes, nx, len) + model length. " +
 		"KDF call histories: every ordered pair (z1, z2) over 14 residue classes x key lengths {97,225,300}^2, both calls compared with the reference (a result must not depend on an earlier call). E2: full product len(z) x keyLen for sm3.Kdf, kdf.Kdf(sm3.New), kdf.Kdf over wrappers hiding KdfInterface / BinaryMarshaler, against SM3(z||ct) concatenation. " +
-		"distinct_nontrivial counts distinct reached states plus distinct (len(z) mod 64, output-block-count, partial-last-block) KDF classes."
+		"distinct_nontrivial counts distinct reached states plus distinct (len(z) mod 64, output-block-count, partial-last-block) KDF classes. " +
+		"In the machine every written buffer must come back unchanged and is overwritten at once; the importing object has been summed before. " +
+		"Widened input dimensions (widen.go, widen_kdf.go, case names widen/...), each exhaustive over its alphabet: " +
+		"place: messages of every length 0..1100 (thorough 0..4300, crossing a page) ending at an unmapped page, whole and split after 1/63/64 bytes, every address offset mod 64 x 19 lengths inside a dirty arena that must stay unchanged, single calls of 8 KiB..1 MiB+1; " +
+		"split: full product buffered bytes 0..130 x next write 0..330 with Sum in between, and 0..64 x 0..130 x 8 third writes; " +
+		"sum-cap: Sum(in) for nil / empty / 1 / 5 byte prefixes x 0,1,31,32,33,64 dirty spare bytes after 0..130 bytes: prefix and everything behind the appended digest unchanged, result overwritten to its capacity, four results held at once; " +
+		"own: two exports held at once, overwritten to capacity, object dump unchanged by that, copies importable, exporter continues; AppendBinary for 2 prefixes x 7 capacity classes; exports of two objects held and swapped; " +
+		"import: the argument inside a dirty record imported three times, unchanged; nil, every truncation, 3 extensions, 8 magic alterations: no panic, argument unchanged, then good import / Reset / same buffer repaired gives the right digests (whether such input is refused is not judged); " +
+		"pair: all histories up to depth 4 (thorough 5) over 22 operations on two live objects (7 write sizes each, Reset, state copies both ways, digest of A fed to B, export of A held and imported later into A or B), both digests taken after every step; " +
+		"values: 8 constant/extreme contents x every length 0..260 (thorough 0..700), appendix vectors of GB/T 32905 compared directly at every split; " +
+		"len: exported states (layout verified against real exports, else skipped) continued with the length field set to 2^29-64 .. 2^61-256 x 5 buffered-byte classes x 2 chaining values, compared with the reference iteration continued from the same chaining value; thorough: a real message of 2^29+200 bytes with 12 checkpoints around bit length 2^32 and an export/import at 2^29-1; " +
+		"kdf-arg: 5 entry points x 17 len(z) x 8 spare-capacity classes x 2 offsets x 5 key lengths, twice per record, record unchanged; nil/empty z; z ending at an unmapped page for len(z) 0..200; " +
+		"kdf-own: result overwritten to capacity and call repeated, same slice with new contents, two results held; " +
+		"kdf-method: the Kdf method of a hash object after 9 object histories x 14 len(z) x 6 key lengths, object usable after Reset; all ordered pairs (14 x 4)^2 on one object plus the first call again; interleave: a KDF call (4 entry points) between two writes of a running hash object; " +
+		"kdf-lanes: len(z) 0..127 and 10 longer x output blocks 11..34 x {first byte, last byte, end} of the last block for the lane entry points, counters crossing 255|256 (9 len(z) x 10 key lengths x 5 entry points) and 65535|65536 (3 len(z)); " +
+		"kdf-history: (14 len(z) x 7 lane classes)^2 x 3^2 ordered pairs of entry points, first call repeated after the second."
 }
 func (Prop) Assumptions() []string {
 	return []string{
 		"reference SM3 transcribed from GB/T 32905 and anchored by its two appendix vectors",
 		"dispatch tiers are those reachable on this amd64 host via GODEBUG=cpu.*=off and -tags purego; arm64/ppc64le/s390x assembly is not covered",
-		"messages with bit length >= 2^32 (length-field carry) are not explored",
+		"bit lengths >= 2^32 are reached in the quick tier only through exported states whose length field the harness sets (sound for the state layout magic|h|x|len, which is verified against real exports first; the oracle is the standard's iteration continued from the same chaining value); a real 2^29+200 byte message runs in the thorough tier only; single Write calls of 4 GiB or more are not explored",
+		"whether UnmarshalBinary refuses a byte string that no export produces is not judged (only: no panic, argument untouched, the object recovers by a good import or Reset)",
+		"an appending call (Sum, AppendBinary) may use the spare capacity of its argument up to the end of what it appends; bytes behind the result must stay",
 	}
 }
 
@@ -90,6 +107,15 @@ func machine() engine.Machine[*state] {
 					t.Fail("hash/write-return", "Write(%d) returned (%d,%v)", c, n, err)
 					return false
 				}
+				// the written buffer stays the caller's: it must come back unchanged and is reused (overwritten) at once,
+				// as io.Copy does with its buffer
+				for i := range buf {
+					if buf[i] != content(s.n+i) {
+						t.Fail("hash/write-modifies-argument", "Write(%d) changed byte %d of its argument", c, i)
+						return false
+					}
+					buf[i] = 0x5a
+				}
 				s.n += c
 			case op == nW:
 				s.h.Reset()
@@ -108,6 +134,7 @@ func machine() engine.Machine[*state] {
 				nh := sm3.New()
 				if op == nW+2 {
 					nh.Write(msgOf(100)[7:])
+					nh.Sum(nil) // anything a Sum leaves behind in the importing object must not survive the import
 				}
 				// the exported state sits in a buffer with dirty spare capacity and is overwritten after the import
 				stb := make([]byte, len(st)+16)
@@ -360,4 +387,6 @@ func (Prop) Run(c *engine.Ctx) {
 			}
 		})
 	}
+	// the generic input dimensions of DESIGN.md 11.4 / 11.5 (widen.go, widen_kdf.go)
+	runWiden(c)
 }
